@@ -21,6 +21,7 @@ import CelloProofs.Lemmas.Text
 import CelloProofs.Lemmas.TextInt
 import CelloProofs.Lemmas.TextFloat
 import CelloProofs.Lemmas.TextRound
+import CelloProofs.Lemmas.TextRoundE32
 import CelloProofs.Lemmas.TextSeq
 import CelloProofs.Lemmas.TextFmt
 import CelloProofs.Lemmas.TextBridge
@@ -334,15 +335,159 @@ theorem C15_float_e_within (upper : Bool) (bits : Nat) (h : fFinite bits = true)
         - val (fDecode bits).2.1 (fDecode bits).2.2| ≤ val (fDecode bits).2.1 (fDecode bits).2.2 / 10 ^ 6 :=
   reparseE_within upper bits h
 
+/-- **Float under `%e` / `%E` *without* `l`, value part, for `float` values (`_partial` of KF-C15-float-spec-narrow; audit 2, item 1).**
+    `scan_from_with` stores through a `float` (`C15_float_arm`).  For every finite double that is the value of a `float` (`isFloat32`
+    — exactly the complement of the finding's territory): what `%e` / `%E` wrote is read back — nearest `float` to the seven-digit
+    text (`strtof`), widened — as a finite double of the same sign that differs from the value written by at most one millionth of
+    it.  (No overflow: from 10^38 on the decimal is a multiple of 10^32, and the largest one within half a unit of FLT_MAX,
+    3402823·10^32, is below FLT_MAX.) -/
+theorem C15_float_e_narrow_partial (upper : Bool) (bits : Nat) (h : fFinite bits = true) (h32 : isFloat32 bits = true) :
+    (fDecode (reparseSpec true (if upper then .E else .e) bits)).1 = (fDecode bits).1 ∧
+    fFinite (reparseSpec true (if upper then .E else .e) bits) = true ∧
+    |val (fDecode (reparseSpec true (if upper then .E else .e) bits)).2.1 (fDecode (reparseSpec true (if upper then .E else .e) bits)).2.2
+        - val (fDecode bits).2.1 (fDecode bits).2.2| ≤ val (fDecode bits).2.1 (fDecode bits).2.2 / 10 ^ 6 :=
+  reparseE32_within upper bits h h32
+
+/-- … and outside `isFloat32` it fails (the finding): 1.5e300 written with `%e` is `1.500000e+300`, read through a `float`: +infinity -/
+example : printFloatSpec .e 0x7E41EB2D66005835 = [49, 46, 53, 48, 48, 48, 48, 48, 101, 43, 51, 48, 48] ∧
+    scanFloating true [49, 46, 53, 48, 48, 48, 48, 48, 101, 43, 51, 48, 48] = .ok (0x7FF0000000000000, []) := by
+  constructor <;> decide +kernel
+
 /-- **Float under `%e` `%E` `%g` `%G`: text stability — NOT proved.**  The consumed length and the position are proved for these
-    specifications (`C15_float_consumed`, `C15_sequence_roundtrip`), and for `%le` / `%lE` the numeric closeness
-    (`C15_float_e_within`).  That the double read back prints as the *same text* under the same specification (the form in which
+    specifications (`C15_float_consumed`, `C15_sequence_roundtrip`), and for `%le` / `%lE` (every finite double) and `%e` / `%E`
+    (`float` values) the numeric closeness (`C15_float_e_within`, `C15_float_e_narrow_partial`).  For `%g` / `%G` there is NO value
+    theorem (the text has three styles and stripped zeros; its decimal value has not been related to `sciDigits 5`).  That the double read back prints as the *same text* under the same specification (the form in which
     `C15_float_value` states "within the printed precision" for `%f`) is stated here for all six conversions; it is evaluated by
     the driver on every such item it sees (`M rt=`) and checked by the harness oracle with libc, but the stability argument of
     `fScaled_stable` has not been carried out for a scale that depends on the value (decade boundaries, the subnormal range),
     nor the parse of the three text styles of `%g`. -/
 def C15_float_sci_statement : Prop :=
   ∀ (cv : FConv) (bits : Nat), fFinite bits = true → printFloatSpec cv (reparseSpec false cv bits) = printFloatSpec cv bits
+
+/-! ## second-round audit: several calls, a failed read, a field width -/
+
+/-- **Several calls (audit 2, item 5).**  Writing a sequence with several `print_to_with` calls, each continuing at the position the
+    previous one returned, is writing it with one; reading it with several `scan_from_with` calls is reading it with one (a call
+    that raises ends the reading: the later targets keep their values).  So `C15_sequence_roundtrip` also speaks about a text
+    written by one call and read by several, and the reverse (harness modes `split` / `join`). -/
+theorem C15_calls_compose (c : Cfg) (a b : List Item) (o : Sink) (pos : Nat) (i : Input) :
+    printItems c o pos (a ++ b) = printItems c (printItems c o pos a).1 (printItems c o pos a).2 b ∧
+    scanItems c i pos (a.map Item.shape ++ b.map Item.shape) =
+      (match scanItems c i pos (a.map Item.shape) with
+       | (va, .ok (i', p')) => (va ++ (scanItems c i' p' (b.map Item.shape)).1, (scanItems c i' p' (b.map Item.shape)).2)
+       | (va, .raised e) => (va ++ (b.map Item.shape).filterMap sentinel, .raised e)
+       | (va, .ub) => (va ++ (b.map Item.shape).filterMap sentinel, .ub)
+       | (va, .unmodelled) => (va ++ (b.map Item.shape).filterMap sentinel, .unmodelled)) := by
+  constructor
+  · induction a generalizing o pos with
+    | nil => simp [printItems]
+    | cons it its ih => simp only [List.cons_append, printItems]; exact ih _ _
+  · generalize a.map Item.shape = sa
+    generalize b.map Item.shape = sb
+    induction sa generalizing i pos with
+    | nil => simp only [List.nil_append, scanItems]
+    | cons s ss ih =>
+      simp only [List.cons_append, scanItems]
+      rcases hs : scanItem c i pos s with ⟨v, r⟩
+      cases r with
+      | ok ip =>
+        obtain ⟨i', p'⟩ := ip
+        simp only [ih p' i']
+        rcases hr : scanItems c i' p' ss with ⟨va, ra⟩
+        cases ra with
+        | ok ip2 => obtain ⟨i2, p2⟩ := ip2; simp [List.append_assoc]
+        | raised e => simp [List.append_assoc]
+        | ub => simp [List.append_assoc]
+        | unmodelled => simp [List.append_assoc]
+      | raised e => simp [List.filterMap_append, List.append_assoc]
+      | ub => simp [List.filterMap_append, List.append_assoc]
+      | unmodelled => simp [List.filterMap_append, List.append_assoc]
+
+/-- the full statement "a read releases what it allocated" — false: `C15_scan_leak_refuted` -/
+def C15_scan_releases_buffer_statement : Prop := ∀ (i : Input) (pos : Nat) (sh : Shape), scanLeak srcCfg i pos sh = 0
+
+/-- **Proposed finding KF-C15-scan-fmtbuf-leak (`_refuted`; audit 2, item 4).**  `scan_from_with` frees `fmt_buf` only before its normal
+    `return`: a read that raises leaves `strlen(fmt) + 4` bytes allocated — 7 for `look_from` of an Int on `abc` (`"%li"`), 6 for
+    `look_from` of a String on the unterminated text `"ab` (the `"%c"` call that meets the end of the input), 8 for `%hhd` on `x`;
+    nothing when `String_Look` itself throws between two reads (`xyz`: no opening quote). -/
+theorem C15_scan_leak_refuted :
+    ¬ C15_scan_releases_buffer_statement ∧
+    scanItem srcCfg { kind := .str, text := [97, 98, 99], cur := 0 } 0 .int = (some (.int 77), .raised .FormatError) ∧
+    scanLeak srcCfg { kind := .str, text := [97, 98, 99], cur := 0 } 0 .int = 7 ∧
+    scanLeak srcCfg { kind := .str, text := [34, 97, 98], cur := 0 } 0 .str = 6 ∧
+    scanLeak srcCfg { kind := .file, text := [120], cur := 0 } 0 (.ispec .hh .d) = 8 ∧
+    scanLeak srcCfg { kind := .str, text := [120, 121, 122], cur := 0 } 0 .str = 0 := by
+  refine ⟨fun h => absurd (h { kind := .str, text := [97, 98, 99], cur := 0 } 0 .int) (by decide), by decide, by decide, by decide,
+    by decide, by decide⟩
+
+/-- **… the part that stands (`_partial`): a read that succeeds releases the buffer** — in particular every read inside the round
+    trip's quantifier (`C15_roundtrip_no_leak`) -/
+theorem C15_scan_leak_partial (c : Cfg) (i : Input) (pos : Nat) (sh : Shape) (v : Option Val) (i' : Input) (p' : Nat)
+    (h : scanItem c i pos sh = (v, .ok (i', p'))) : scanLeak c i pos sh = 0 := by
+  simp [scanLeak, h]
+
+theorem C15_roundtrip_no_leak (k : Kind) (pre : List Nat) (v : Val) (z : List Nat)
+    (hv : (Item.shw v).valid = true) (hs : (Item.shw v).safe k z = true) :
+    scanLeak srcCfg { kind := k, text := pre ++ (Item.shw v).text srcCfg ++ z, cur := pre.length } pre.length (Item.shw v).shape = 0 :=
+  C15_scan_leak_partial _ _ _ _ _ _ _ (C15_single_value k pre v z hv hs).2
+
+/-- the full statement "a read that fails leaves its target as it was" (what C12 asks of every operation) — false for a String target -/
+def C15_failed_look_keeps_target_statement : Prop :=
+  ∀ (i : Input) (pos : Nat) (v : Option Val) (e : Exc), scanItem srcCfg i pos .str = (v, .raised e) → v = sentinel .str
+
+/-- **Proposed finding KF-C15-look-clobbers-target (`_refuted`; audit 2, item 4).**  `String_Look` begins with `String_Clear(self)` and
+    appends while it reads: `look_from(s, input, 0)` on the unterminated text `"ab` raises FormatError with `s` = `ab`, on `xyz` (no
+    opening quote) with `s` emptied — the previous value (`?`, the harness's sentinel) is gone in both cases. -/
+theorem C15_failed_look_clobbers_refuted :
+    ¬ C15_failed_look_keeps_target_statement ∧
+    scanItem srcCfg { kind := .str, text := [34, 97, 98], cur := 0 } 0 .str = (some (.str [97, 98]), .raised .FormatError) ∧
+    scanItem srcCfg { kind := .str, text := [120, 121, 122], cur := 0 } 0 .str = (some (.str []), .raised .FormatError) := by
+  refine ⟨fun h => ?_, by decide, by decide⟩
+  have := h { kind := .str, text := [34, 97, 98], cur := 0 } 0 (some (.str [97, 98])) .FormatError (by decide)
+  revert this; decide
+
+/-- … an Int or Float target keeps its value when the read fails (scanf stores nothing, `assign` is not reached) -/
+example : scanItem srcCfg { kind := .str, text := [97, 98, 99], cur := 0 } 0 .flt = (some (.flt 0x401E000000000000), .raised .FormatError) := by
+  decide
+
+/-- **A field width or the `0` flag inside a specification is outside the round trip — exhibited (audit 2, item 2).**  The property
+    theorems speak about specifications without flags, width or precision (`Item.ispec`).  With them the same format string does
+    *not* read back what it wrote, by the rules of scanf, not by a defect of Cello: `%08li` writes −42 as `-0000042` and reads −34
+    (`%i` takes the padding for an octal prefix); `%5li` writes 1234567 in full and reads 12345, leaving `67` unread. -/
+theorem C15_width_refuted :
+    printIntSpecW true 8 .l .i (-42) = [45, 48, 48, 48, 48, 48, 52, 50] ∧
+    scanIntSpecW srcCfg true 8 .l .i [45, 48, 48, 48, 48, 48, 52, 50] = .ok (-34, []) ∧
+    printIntSpecW false 5 .l .i 1234567 = [49, 50, 51, 52, 53, 54, 55] ∧
+    scanIntSpecW srcCfg false 5 .l .i [49, 50, 51, 52, 53, 54, 55] = .ok (12345, [54, 55]) ∧
+    widthSafe true 8 .l .i (-42) = false ∧ widthSafe false 5 .l .i 1234567 = false := by
+  have e1 : printIntSpec .l .i (-42) = [45, 52, 50] := by
+    rw [printIntSpec_l_signed .i rfl (-42) (by decide)]; simp [printInt, natDigits_lt10, natDigits_ge10]
+  have e2 : printIntSpec .l .i 1234567 = [49, 50, 51, 52, 53, 54, 55] := by
+    rw [printIntSpec_l_signed .i rfl 1234567 (by decide)]; simp [printInt, natDigits_lt10, natDigits_ge10]
+  refine ⟨?_, ?_, ?_, ?_, ?_, ?_⟩
+  · simp [printIntSpecW, e1, List.replicate]
+  · simp [scanIntSpecW, ispecWFmt, natDigits_lt10]; decide
+  · simp [printIntSpecW, e2]
+  · simp [scanIntSpecW, ispecWFmt, natDigits_lt10]; decide
+  · simp [widthSafe, e1]
+  · simp [widthSafe, e2]
+
+/-- **Harmless widths — NOT proved.**  When the width is at least the length of the text written and no zero is padded in front of a
+    number read with `%i` (`widthSafe`), the specification with the width reads back what the one without it does.  Checked by the
+    harness oracle on every generated `W` op with such a width (sig C15-value-int-width) and evaluated by the driver; the proof
+    (white space skipped, `take w` of text + safe rest) has not been carried out. -/
+def C15_width_safe_statement : Prop :=
+  ∀ (zero : Bool) (w : Nat) (m : IMod) (cv : IConv) (n : Int) (rest : List Nat), inInt64 n = true → ispecSafe m cv n rest = true →
+    widthSafe zero w m cv n = true →
+    scanIntSpecW srcCfg zero w m cv (printIntSpecW zero w m cv n ++ rest) = .ok (convInt m cv n, rest)
+
+/-- two instances of it: `%5li` of 42 followed by `;`, `%04lx` of 255 -/
+example :
+    scanIntSpecW srcCfg false 5 .l .i ([32, 32, 32, 52, 50] ++ [59]) = .ok (42, [59]) ∧
+    scanIntSpecW srcCfg true 4 .l .x [48, 48, 102, 102] = .ok (255, []) := by
+  constructor
+  · simp [scanIntSpecW, ispecWFmt, natDigits_lt10]; decide
+  · simp [scanIntSpecW, ispecWFmt, natDigits_lt10]; decide
 
 /-! ## non-vacuity -/
 
